@@ -72,7 +72,9 @@ func autosaveHistArgs(prog, fault string, oldLines int) (args, env []string, ok 
 		args = []string{"child-autosave-hist", "L", "-", prog[i+1:]}
 	} else {
 		args = []string{"child-autosave-hist", "S", prog[:i], prog[i+1:]}
-		first = 1
+		if prog[:i] != "-" { // an empty first program sets nothing: its AutoSave is skipped and passes no crash point
+			first = 1
+		}
 	}
 	f := strings.Split(fault, ":")
 	switch f[0] {
